@@ -113,6 +113,32 @@ def _check_walk(ctx, result, module, func, name, expect_callee, expect_op):
             if step.kind == "stmt" and isinstance(step.node, ast.Assign) and isinstance(step.node.targets[0], ast.Subscript):
                 store = step
         if store is None:
+            # two-pass form: the walk only collects the per-term operands in a local list (directly, or through an inlined
+            # generator), a second loop over that list - in order, complete - overwrites the verdict
+            gtext = _txt(it)
+            for idx2 in range(start + 1, len(path)):
+                step2 = path[idx2]
+                if step2.kind != "iter" or not isinstance(step2.node, ast.For) or step2.node is loop:
+                    continue
+                it2 = step2.expand(step2.node.iter)
+                while isinstance(it2, ast.Call) and isinstance(it2.func, ast.Name) and it2.func.id in ("list", "tuple") \
+                        and len(it2.args) == 1:
+                    it2 = it2.args[0]
+                if not (isinstance(it2, (ast.List, ast.Tuple)) and it2.elts and all(gtext in _txt(e) for e in it2.elts)):
+                    continue
+                brk2 = any(isinstance(n, (ast.Break, ast.Return)) for s2 in step2.node.body for n in ast.walk(s2))
+                if brk2:
+                    result.ob(f"{name}: the second pass visits every collected term", False, module.loc(step2.node), "")
+                    result.add(Finding("R-CMP", module, name, step2.node, "the term walk stops early (break/return in the loop)",
+                                       construct=f"{name}: loop with break"))
+                for step3 in path[idx2 + 1:]:
+                    if step3.kind in ("iter", "loopexit"):
+                        break
+                    if step3.kind == "stmt" and isinstance(step3.node, ast.Assign) and isinstance(step3.node.targets[0], ast.Subscript):
+                        store = step3
+                if store is not None:
+                    break
+        if store is None:
             result.ob(f"{name}: verdict overwritten inside the walk", False, where, "")
             result.add(Finding("R-CMP", module, name, loop, "no masked overwrite of the verdict inside the term walk",
                                construct=f"{name}: no store in loop"))
